@@ -109,7 +109,7 @@ func runEngineB(p *plan, tier string, base uint64, workers int, scale float64, r
 						sum.Infra = append(sum.Infra, fmt.Sprintf("%s seed %d: %s", st.Workload, seed, res.Harness))
 					} else if res.Class != "" {
 						sum.Violations = append(sum.Violations, res)
-						sum.Workload[fmt.Sprint(res.Seed)] = st.Workload
+						sum.Violations[len(sum.Violations)-1].Workload = st.Workload
 					}
 					mu.Unlock()
 				}
@@ -123,7 +123,7 @@ func runEngineB(p *plan, tier string, base uint64, workers int, scale float64, r
 	printedKnown := map[string]bool{}
 	minimised := map[string]int{}
 	for _, v := range sum.Violations {
-		wl := sum.Workload[fmt.Sprint(v.Seed)]
+		wl := v.Workload
 		if kf := matchKnownB(p.ID, wl, bin, v); kf != "" {
 			known[kf]++
 			if !printedKnown[kf] {
